@@ -808,32 +808,45 @@ func (c *Compiler) compileUTF84ByteRange(lo, hi rune, endState StateID) []StateI
 	}
 
 	// UTF-8 4-byte encoding: 11110xxx 10xxxxxx 10xxxxxx 10xxxxxx
-	// For simplicity, use a conservative approach: match any valid 4-byte sequence in range
-	// This creates more states but is correct
+	// Split [lo, hi] into sub-ranges whose encodings differ only in a suffix of
+	// bytes that each span a full sub-range (the utf8-ranges algorithm): every
+	// sub-range is then one chain of four byte ranges, and the union of the chains
+	// is exactly [lo, hi]. (One chain per lead byte with full continuation ranges,
+	// as before, accepted the whole plane of the lead byte.)
+	type runeRange struct{ lo, hi rune }
+	stack := []runeRange{{lo, hi}}
+	for len(stack) > 0 {
+		r := stack[len(stack)-1]
+		stack = stack[:len(stack)-1]
 
-	loLead := byte(0xF0 | (lo >> 18))
-	hiLead := byte(0xF0 | (hi >> 18))
-
-	for leadVal := loLead; leadVal <= hiLead; leadVal++ {
-		// Determine cont1 range for this lead byte
-		var c1Lo, c1Hi byte
-		if leadVal == 0xF0 {
-			c1Lo = 0x90 // F0 requires cont1 >= 0x90
-		} else {
-			c1Lo = 0x80
+		split := false
+		for i := uint(1); i < 4; i++ {
+			m := rune(1)<<(6*i) - 1 // the low i continuation bytes
+			if r.lo&^m == r.hi&^m {
+				continue
+			}
+			if r.lo&m != 0 {
+				stack = append(stack, runeRange{(r.lo | m) + 1, r.hi}, runeRange{r.lo, r.lo | m})
+				split = true
+				break
+			}
+			if r.hi&m != m {
+				stack = append(stack, runeRange{r.hi &^ m, r.hi}, runeRange{r.lo, (r.hi &^ m) - 1})
+				split = true
+				break
+			}
 		}
-		if leadVal == 0xF4 {
-			c1Hi = 0x8F // F4 requires cont1 <= 0x8F
-		} else {
-			c1Hi = 0xBF
+		if split {
+			continue
 		}
 
-		// Build states for each lead byte value
-		cont3 := c.builder.AddByteRange(0x80, 0xBF, endState)
-		cont2 := c.builder.AddByteRange(0x80, 0xBF, cont3)
-		cont1 := c.builder.AddByteRange(c1Lo, c1Hi, cont2)
-		lead := c.builder.AddByteRange(leadVal, leadVal, cont1)
-		starts = append(starts, lead)
+		loBytes := [4]byte{byte(0xF0 | r.lo>>18), byte(0x80 | r.lo>>12&0x3F), byte(0x80 | r.lo>>6&0x3F), byte(0x80 | r.lo&0x3F)}
+		hiBytes := [4]byte{byte(0xF0 | r.hi>>18), byte(0x80 | r.hi>>12&0x3F), byte(0x80 | r.hi>>6&0x3F), byte(0x80 | r.hi&0x3F)}
+		next := endState
+		for k := 3; k >= 0; k-- {
+			next = c.builder.AddByteRange(loBytes[k], hiBytes[k], next)
+		}
+		starts = append(starts, next)
 	}
 
 	return starts
